@@ -409,150 +409,344 @@ func c02Matching(c *core.Ctx) {
 	}
 }
 
+// c02Retained decides the retained-mirror clause by evaluating one iteration of
+// the loop over the category totals for the four kinds of category (retained or
+// not, with or without surcharge). The summary's Sum, the category's Amount and
+// its Surcharge are given three numbers far apart, Amount.Add / Subtract are
+// integer + and −, precision-only operations are the identity, and the value
+// left in the Sum (or in the local later stored there) must be
+// Sum ± (Amount [+ Surcharge]), minus exactly when the category is retained.
 func c02Retained(c *core.Ctx) {
 	p := c.P
 	found := false
+	const wS, wA, wC = int64(1000000), int64(1000), int64(1)
 	for _, fd := range p.Funcs(p.Pkg("tax")) {
 		info := fd.Pkg.TypesInfo
-		var ff *core.FuncFlow
+		var lists [][]ast.Stmt
 		ast.Inspect(fd.Decl.Body, func(n ast.Node) bool {
-			rs, ok := n.(*ast.RangeStmt)
-			if !ok || rs.Value == nil {
-				return true
+			switch x := n.(type) {
+			case *ast.BlockStmt:
+				lists = append(lists, x.List)
+			case *ast.CaseClause:
+				lists = append(lists, x.Body)
 			}
-			cat := core.VarOf(info, rs.Value)
-			if cat == nil {
-				return true
-			}
-			if nn, _ := core.StructOf(cat.Type()); nn == nil || nn.Obj().Name() != "CategoryTotal" {
-				return true
-			}
-			// accumulations into the summary's Sum inside this loop
-			type acc struct {
-				as     *ast.AssignStmt
-				op     string // Add / Subtract / "" for a function value
-				fnVar  *types.Var
-				addend string
-			}
-			var accs []acc
-			ast.Inspect(rs.Body, func(m ast.Node) bool {
-				as, ok := m.(*ast.AssignStmt)
-				if !ok || len(as.Lhs) != 1 || len(as.Rhs) != 1 {
-					return true
-				}
-				f := core.FieldOf(info, as.Lhs[0])
-				if f == nil || f.Name() != "Sum" {
-					return true
-				}
-				call, ok := ast.Unparen(as.Rhs[0]).(*ast.CallExpr)
-				if !ok {
-					return true
-				}
-				if fn := core.Callee(info, call); isAmountMethod(fn, "Add", "Subtract") && len(call.Args) == 1 && sameLoc(info, as.Lhs[0], core.RecvExpr(call)) {
-					accs = append(accs, acc{as, fn.Name(), nil, types.ExprString(call.Args[0])})
-					return true
-				}
-				if v := core.VarOf(info, call.Fun); v != nil && len(call.Args) == 2 && sameLoc(info, as.Lhs[0], call.Args[0]) {
-					if _, isSig := v.Type().Underlying().(*types.Signature); isSig {
-						accs = append(accs, acc{as, "", v, types.ExprString(call.Args[1])})
-					}
-				}
-				return true
-			})
-			if len(accs) == 0 {
-				return true
-			}
-			found = true
-			if ff == nil {
-				ff = core.NewFuncFlow(fd)
-			}
-			retainedAt := func(n ast.Node) (val, known bool) {
-				node := ff.Flow.EnclosingNode(n)
-				if node == nil {
-					return false, false
-				}
-				for l, v := range ff.Flow.CondsAt(node) {
-					if f := core.FieldOf(info, l); f != nil && f.Name() == "Retained" && core.RootVar(info, l) == cat {
-						return v, true
-					}
-				}
-				return false, false
-			}
-			okAll, why := true, ""
-			retained, ordinary := map[string]int{}, map[string]int{}
-			for _, a := range accs {
-				if a.fnVar == nil {
-					val, known := retainedAt(a.as)
-					switch {
-					case !known:
-						okAll, why = false, fmt.Sprintf("%s at %s is not conditioned on the category's Retained flag", a.op, p.Rel(a.as.Pos()))
-					case val && a.op != "Subtract":
-						okAll, why = false, fmt.Sprintf("a retained category's %s is added at %s", a.addend, p.Rel(a.as.Pos()))
-					case !val && a.op != "Add":
-						okAll, why = false, fmt.Sprintf("an ordinary category's %s is subtracted at %s", a.addend, p.Rel(a.as.Pos()))
-					}
-					if val {
-						retained[a.addend]++
-					} else {
-						ordinary[a.addend]++
-					}
+			return true
+		})
+		for _, list := range lists {
+			for li, stmt := range list {
+				rs, ok := stmt.(*ast.RangeStmt)
+				if !ok || rs.Value == nil {
 					continue
 				}
-				// the operation is a function value: every definition is Amount.Add / Amount.Subtract,
-				// Subtract only under Retained, and the variable is reset in every iteration
-				// before the accumulation (a choice made for one category must not carry over)
-				ld := core.NewLocalDefs(info, fd.Decl.Body)
-				reset := false
-				for _, d := range ld.All(a.fnVar) {
-					name := ""
-					if d.RHS != nil {
-						if se, ok := ast.Unparen(d.RHS).(*ast.SelectorExpr); ok {
-							if fn, _ := info.Uses[se.Sel].(*types.Func); isAmountMethod(fn, "Add", "Subtract") {
-								name = fn.Name()
+				cat := core.VarOf(info, rs.Value)
+				if cat == nil {
+					continue
+				}
+				if nn, _ := core.StructOf(cat.Type()); nn == nil || nn.Obj().Name() != "CategoryTotal" {
+					continue
+				}
+				isSum := func(e ast.Expr) (string, bool) {
+					if f := core.FieldOf(info, e); f != nil && f.Name() == "Sum" && core.RootVar(info, e) != cat {
+						_, path := core.FieldPath(info, e)
+						return path, path != ""
+					}
+					return "", false
+				}
+				// the accumulator: a Sum field assigned in the loop, or a local assigned in the
+				// loop that is stored in a Sum field right after it
+				sumKey := ""
+				var sumVar *types.Var
+				ast.Inspect(rs.Body, func(m ast.Node) bool {
+					if as, ok := m.(*ast.AssignStmt); ok {
+						for _, l := range as.Lhs {
+							if k, ok := isSum(l); ok {
+								sumKey = k
 							}
 						}
 					}
-					in := d.Stmt != nil && rs.Body.Pos() <= d.Stmt.Pos() && d.Stmt.End() <= rs.Body.End()
-					switch name {
-					case "":
-						okAll, why = false, fmt.Sprintf("the operation applied at %s is a function value that is not always Amount.Add or Amount.Subtract", p.Rel(a.as.Pos()))
-					case "Subtract":
-						if val, known := retainedAt(d.Stmt); !in || !known || !val {
-							okAll, why = false, "Amount.Subtract is chosen where the category is not known to be retained"
+					return true
+				})
+				if sumKey == "" {
+					for _, after := range list[li+1:] {
+						as, ok := after.(*ast.AssignStmt)
+						if !ok || len(as.Lhs) != 1 || len(as.Rhs) != 1 {
+							continue
 						}
-					case "Add":
-						if in && d.Stmt.Pos() < a.as.Pos() {
-							for _, st := range rs.Body.List {
-								if st == d.Stmt {
-									reset = true
+						if _, ok := isSum(as.Lhs[0]); !ok {
+							continue
+						}
+						if v := core.VarOf(info, as.Rhs[0]); v != nil {
+							assigned := false
+							ast.Inspect(rs.Body, func(m ast.Node) bool {
+								if as2, ok := m.(*ast.AssignStmt); ok {
+									for _, l := range as2.Lhs {
+										if core.VarOf(info, l) == v {
+											assigned = true
+										}
+									}
+								}
+								return true
+							})
+							if assigned {
+								sumVar = v
+							}
+						}
+					}
+				}
+				if sumKey == "" && sumVar == nil {
+					continue
+				}
+				found = true
+				okAll, why := true, ""
+				for _, kind := range []struct{ retained, surcharge bool }{{false, false}, {false, true}, {true, false}, {true, true}} {
+					kind := kind
+					ev := &core.AbsEval{Info: info}
+					ev.Cell = isSum
+					ev.SkipLoop = func(ast.Stmt) bool { return true }
+					ev.Branch = func(b *ast.BranchStmt) ([]any, bool) {
+						return nil, b.Tok == token.CONTINUE && b.Label == nil
+					}
+					ev.Atom = func(e ast.Expr) (any, bool) { return c02RetainedAtom(c, ev, info, cat, kind.retained, kind.surcharge, wA, wC, e) }
+					if sumVar != nil {
+						ev.Set(sumVar, wS)
+					} else {
+						ev.SetCell(sumKey, wS)
+					}
+					// a call made for its effects must not be one that writes a Sum itself
+					opaque := ""
+					ast.Inspect(rs.Body, func(m ast.Node) bool {
+						es, ok := m.(*ast.ExprStmt)
+						if !ok {
+							return true
+						}
+						if call, ok := es.X.(*ast.CallExpr); ok {
+							if fn := core.Callee(info, call); fn != nil && core.InModule(fn.Pkg()) {
+								for f := range effectsOf(p).writes[fn] {
+									if f.Name() == "Sum" {
+										opaque = core.FuncName(fn)
+									}
 								}
 							}
 						}
+						return true
+					})
+					_, _, evOK := ev.RunList(rs.Body.List)
+					var got any
+					if sumVar != nil {
+						got = ev.VarValue(sumVar)
+					} else {
+						got = ev.CellValue(sumKey)
+					}
+					gv, isN := got.(int64)
+					what := "an ordinary category"
+					if kind.retained {
+						what = "a retained category"
+					}
+					if kind.surcharge {
+						what += " with a surcharge"
+					}
+					if !evOK || !isN || opaque != "" {
+						okAll = false
+						why = "UNDECIDED: the effect of one iteration on the Sum could not be evaluated for " + what
+						if opaque != "" {
+							why += " (" + opaque + " writes a Sum)"
+						}
+						break
+					}
+					want := wA
+					if kind.surcharge {
+						want += wC
+					}
+					if kind.retained {
+						want = -want
+					}
+					if gv != wS+want {
+						okAll = false
+						d := gv - wS
+						why = fmt.Sprintf("for %s the Sum changes by %s, expected %s", what, c02Decode(d, wA, wC), c02Decode(want, wA, wC))
+						break
 					}
 				}
-				if okAll && !reset {
-					okAll, why = false, fmt.Sprintf("the operation variable `%s` is not reset to Amount.Add at the start of each iteration: once a retained category has been seen, every later category is subtracted as well", a.fnVar.Name())
+				msg := "the tax total does not add ordinary categories and subtract retained ones symmetrically (same amounts, surcharges included): " + why
+				if strings.HasPrefix(why, "UNDECIDED:") {
+					msg = why
 				}
+				c.Ob("C02-R2", fd.Name()+"#retained-mirror", rs.Pos(), okAll, msg)
 			}
-			if okAll {
-				for k, v := range retained {
-					if ordinary[k] != v {
-						okAll, why = false, fmt.Sprintf("%s is subtracted for retained categories but not added for ordinary ones (or vice versa)", k)
-					}
-				}
-				for k, v := range ordinary {
-					if retained[k] != v {
-						okAll, why = false, fmt.Sprintf("%s is added for ordinary categories but not subtracted for retained ones", k)
-					}
-				}
-			}
-			c.Ob("C02-R2", fd.Name()+"#retained-mirror", rs.Pos(), okAll, "the tax total does not add ordinary categories and subtract retained ones symmetrically (same amounts, surcharges included): "+why)
-			return true
-		})
+		}
 	}
 	if !found {
 		c.Ob("C02-R2", "UNRESOLVED:retained-branch", token.NoPos, false, "no loop over the categories that accumulates into the summary's Sum found in package tax")
 	}
+}
+
+// c02Decode renders a change of the Sum as a combination of Amount and Surcharge.
+func c02Decode(d, wA, wC int64) string {
+	a := (d + wA/2) / wA
+	if d < 0 {
+		a = -((-d + wA/2) / wA)
+	}
+	cc := d - a*wA
+	return fmt.Sprintf("%+d×Amount %+d×Surcharge", a, cc/wC)
+}
+
+var (
+	effCache     *fieldEffects
+	effCacheProg *core.Program
+	effCacheMode bool
+)
+
+func effectsOf(p *core.Program) *fieldEffects {
+	if effCache == nil || effCacheProg != p || effCacheMode != p.InlineMode {
+		effCache, effCacheProg, effCacheMode = newFieldEffects(p), p, p.InlineMode
+	}
+	return effCache
+}
+
+// c02RetainedAtom gives values to the expressions one iteration is made of.
+func c02RetainedAtom(c *core.Ctx, ev *core.AbsEval, info *types.Info, cat *types.Var, retained, surcharge bool, wA, wC int64, e ast.Expr) (any, bool) {
+	e = ast.Unparen(e)
+	ofCat := func(x ast.Expr, name string) bool {
+		f := core.FieldOf(info, x)
+		return f != nil && f.Name() == name && core.RootVar(info, x) == cat
+	}
+	switch x := e.(type) {
+	case *ast.SelectorExpr:
+		if ofCat(x, "Retained") {
+			return retained, true
+		}
+		if ofCat(x, "Amount") {
+			return wA, true
+		}
+		// a method expression used as a value: num.Amount.Add
+		if fn, _ := info.Uses[x.Sel].(*types.Func); isAmountMethod(fn, "Add", "Subtract") {
+			if sel := info.Selections[x]; sel != nil && sel.Kind() == types.MethodExpr {
+				return "fn:" + fn.Name(), true
+			}
+		}
+	case *ast.StarExpr:
+		if ofCat(x.X, "Surcharge") && surcharge {
+			return wC, true
+		}
+	case *ast.BinaryExpr:
+		if x.Op == token.EQL || x.Op == token.NEQ {
+			l, r := ast.Unparen(x.X), ast.Unparen(x.Y)
+			if core.IsNil(info, l) {
+				l, r = r, l
+			}
+			if core.IsNil(info, r) && ofCat(l, "Surcharge") {
+				return (x.Op == token.NEQ) == surcharge, true
+			}
+		}
+	case *ast.CallExpr:
+		fn := core.Callee(info, x)
+		if fn == nil {
+			// a call through a variable holding Amount.Add / Amount.Subtract
+			if fv, ok := ev.Eval(x.Fun); ok && len(x.Args) == 2 {
+				if name, isS := fv.(string); isS && strings.HasPrefix(name, "fn:") {
+					l, ok1 := ev.Eval(x.Args[0])
+					r, ok2 := ev.Eval(x.Args[1])
+					ln, isL := l.(int64)
+					rn, isR := r.(int64)
+					if ok1 && ok2 && isL && isR {
+						if name == "fn:Add" {
+							return ln + rn, true
+						}
+						return ln - rn, true
+					}
+				}
+			}
+			return nil, false
+		}
+		if isAmountMethod(fn, "Add", "Subtract") {
+			var l, r any
+			var ok1, ok2 bool
+			if sel := info.Selections[ast.Unparen(x.Fun).(*ast.SelectorExpr)]; sel != nil && sel.Kind() == types.MethodExpr && len(x.Args) == 2 {
+				l, ok1 = ev.Eval(x.Args[0])
+				r, ok2 = ev.Eval(x.Args[1])
+			} else if len(x.Args) == 1 {
+				l, ok1 = ev.Eval(core.RecvExpr(x))
+				r, ok2 = ev.Eval(x.Args[0])
+			}
+			ln, isL := l.(int64)
+			rn, isR := r.(int64)
+			if ok1 && ok2 && isL && isR {
+				if fn.Name() == "Add" {
+					return ln + rn, true
+				}
+				return ln - rn, true
+			}
+			return nil, false
+		}
+		if i, ok := precisionOnly(c.P, fn); ok {
+			if i < 0 {
+				return ev.Eval(core.RecvExpr(x))
+			}
+			if i < len(x.Args) {
+				return ev.Eval(x.Args[i])
+			}
+		}
+	}
+	return nil, false
+}
+
+// precisionOnly: the function hands back one of its amount operands with at
+// most its precision changed: a precision method of num.Amount (index −1: the
+// receiver), or a module function each return of which is one and the same
+// parameter, bare or under such methods.
+func precisionOnly(p *core.Program, fn *types.Func) (int, bool) {
+	if isAmountMethod(fn, "MatchPrecision", "Rescale", "RescaleUp", "RescaleDown", "Upscale", "Downscale", "RescaleRange") {
+		return -1, true
+	}
+	if !core.InModule(fn.Pkg()) {
+		return 0, false
+	}
+	fd := p.DeclOf(fn)
+	sig := fn.Type().(*types.Signature)
+	if fd == nil || sig.Results().Len() != 1 || !isAmountType(sig.Results().At(0).Type()) {
+		return 0, false
+	}
+	info := fd.Pkg.TypesInfo
+	idx, ok, n := -2, true, 0
+	ast.Inspect(fd.Decl.Body, func(m ast.Node) bool {
+		if _, isLit := m.(*ast.FuncLit); isLit {
+			return false
+		}
+		r, isR := m.(*ast.ReturnStmt)
+		if !isR || len(r.Results) != 1 {
+			return true
+		}
+		n++
+		x := ast.Unparen(r.Results[0])
+		for {
+			call, isCall := x.(*ast.CallExpr)
+			if !isCall {
+				break
+			}
+			cf := core.Callee(info, call)
+			if cf == nil || !isAmountMethod(cf, "MatchPrecision", "Rescale", "RescaleUp", "RescaleDown", "Upscale", "Downscale", "RescaleRange") {
+				ok = false
+				return true
+			}
+			x = ast.Unparen(core.RecvExpr(call))
+		}
+		v := core.VarOf(info, x)
+		j, isParam := paramIndex(fn, v)
+		if v == nil || !isParam || (idx != -2 && idx != j) {
+			ok = false
+			return true
+		}
+		idx = j
+		return true
+	})
+	if !ok || n == 0 || idx < 0 {
+		return 0, false
+	}
+	// the parameter is not assigned in the function
+	for range core.NewLocalDefs(info, fd.Decl.Body).All(sig.Params().At(idx)) {
+		return 0, false
+	}
+	return idx, true
 }
 
 func c02Included(c *core.Ctx) {
